@@ -382,6 +382,8 @@ func UUIDValue(info Info, data []byte) (Info, error) {
 				{"Time (raw)", fmt.Sprintf("%d", u.Time())},
 				{"Time (UTC)", t.Format("2006-01-02 15:04:05.9999999")},
 			}...)
+		case 8:
+			info.Description = "UUID v8 (custom)"
 		case 0xff:
 			if u.String() == uuid.Max.String() {
 				info.Description = "UUID (Max UUID)"
